@@ -34,7 +34,7 @@ OBS_ENV = {"VERIF_OBS_EXTRA": "harness.obs_wire,harness.obs_c05"}
 CLAUSES = ["C05.raised", "C05.none_expected", "C05.value", "C05.kind", "C05.text", "C05.bytes", "C05.stream_items", "C05.stream_order"]
 
 HOLDING = ["TypeOK", "MachineIsModel", "SelectionsAgree", "SelectionIsDocumented", "JudgeAgrees", "NoContentIsNone", "PrimaryJsonHolds", "StreamsKeepOrder"]
-ACTIONS_AS_IS = ["SelectSignature", "SelectHandler", "LoadFails", "CasePrimary", "CaseSecondary", "CaseDefault", "ReturnNone", "StreamBytes", "StreamSseJson", "ContentTypeSwitch", "StructureJson", "CastJson", "Judge"]
+ACTIONS_AS_IS = ["SelectSignature", "SelectHandler", "LoadFails", "CasePrimary", "CaseSecondary", "CaseDefault", "ReturnNone", "StreamBytes", "StreamSseJson", "ContentTypeSwitch", "StructureJson", "CastJson", "ReturnText", "Judge"]
 ACTIONS_FIXED = ["SelectSignature", "SelectHandler", "CasePrimary", "ReturnNone", "StreamBytes", "StreamSseJson", "ContentTypeSwitch", "StructureJson", "CastJson", "ReturnText", "StreamRecords", "Judge"]
 
 R = features.ref
